@@ -31,6 +31,17 @@ def main(tier, seed):
     t0 = time.time()
     specs = enumerate_specs(tier)
     results = runner.run_pool(__name__, specs, tier, seed)
+    rc = None
+    extra_lines = []
+    if tier != "quick":
+        # oracle validation: every reference definition against the PyTorch operation it claims to define
+        from .. import refcheck
+        rc = refcheck.check_catalogue(cat.REG, tier, seed)
+        extra_lines.append("reference definitions cross-checked against torch: %d configurations, %d mismatches, not mapped: %s" % (
+            rc["checked"], rc["n_mismatches"], rc["unmapped_ops"]))
+        if rc["n_mismatches"]:
+            print("HARNESS-ERROR: a reference definition disagrees with torch: %s" % (rc["mismatches"][:3],))
+            return 2
     return runner.finish(
         PROP, tier, seed, results, t0,
         bounds={"ops": sorted(cat.REG), "grid": "see vf/opcat_tensor.py configs()/illegal_configs() for the tier"},
@@ -39,5 +50,6 @@ def main(tier, seed):
                      "references are index-level definitions written on scalars (vf/opcat_tensor.py), cross-checked against torch in the thorough tier",
                      "cpu_ops.epsilon := 0 for log-type ops (guard effects belong to C09)"],
         stubs=["numpy creators inside synapgrad return constant symbolic arrays", "cpu_ops.epsilon := 0 where listed"],
+        extra_cov={"references_vs_torch": rc}, extra_lines=extra_lines,
         rule="one configuration = op x shapes x arguments (legal: must be accepted and equal the reference for all "
              "operand values; illegal: must raise)")
